@@ -43,16 +43,15 @@ theorem idom_unique (g : Digraph) (v d₁ d₂ : Nat) (hv : Reach g.Edge g.entry
     (h1 : IDom g.Edge g.entry d₁ v) (h2 : IDom g.Edge g.entry d₂ v) : d₁ = d₂ :=
   Spec.idom_unique hv h1 h2
 
+/-- every reachable vertex other than the entry has an immediate dominator -/
+theorem idom_exists (g : Digraph) (v : Nat) (hv : Reach g.Edge g.entry v) (hne : v ≠ g.entry) :
+    ∃ d, IDom g.Edge g.entry d v :=
+  Spec.idom_exists hv hne
+
 /-- two dominator trees of the same graph agree on every node -/
 theorem domTree_unique (g : Digraph) (t₁ t₂ : Nat → Option Nat)
-    (h1 : IsDomTree g t₁) (h2 : IsDomTree g t₂) (v : Nat) (hv : v < g.n) : t₁ v = t₂ v := by
-  by_cases hc : v = g.entry ∨ ¬ Reach g.Edge g.entry v
-  · rw [(h1 v hv).1 hc, (h2 v hv).1 hc]
-  · have hne : v ≠ g.entry := fun h => hc (Or.inl h)
-    have hr : Reach g.Edge g.entry v := Classical.byContradiction (fun h => hc (Or.inr h))
-    obtain ⟨d1, e1, i1⟩ := (h1 v hv).2 hne hr
-    obtain ⟨d2, e2, i2⟩ := (h2 v hv).2 hne hr
-    rw [e1, e2, Spec.idom_unique hr i1 i2]
+    (h1 : IsDomTree g t₁) (h2 : IsDomTree g t₂) (v : Nat) (hv : v < g.n) : t₁ v = t₂ v :=
+  isDomTree_unique h1 h2 v hv
 
 /-! ### the reference and the certificate checker are correct, for all graphs -/
 
@@ -70,6 +69,12 @@ theorem idomRef_correct (g : Digraph) (hwf : g.WF) (v d : Nat) (hv : Reach g.Edg
 theorem cert_sound_complete (g : Digraph) (hwf : g.WF) (t : Nat → Option Nat) :
     checkDomTree g t = true ↔ IsDomTree g t :=
   checkDomTree_iff g hwf t
+
+/-- the reference is total: it computes the dominator tree of every well-formed graph, and the checker
+    accepts `t` iff `t` equals the reference on every node ("t = the dominator tree") -/
+theorem cert_iff_reference (g : Digraph) (hwf : g.WF) (t : Nat → Option Nat) :
+    IsDomTree g (idomRef g) ∧ (checkDomTree g t = true ↔ ∀ v, v < g.n → t v = idomRef g v) :=
+  ⟨isDomTree_idomRef g hwf, checkDomTree_iff_ref g hwf t⟩
 
 /-! ### what is proved about the model of `dom_lt` -/
 
